@@ -24,15 +24,20 @@ theorem slice_appended (a b : Bytes) : slice (a ++ b) ⟨a.length, b.length⟩ =
 /-! ### invariant of the `for_each_sync` closure -/
 
 /-- `done` = (position, payload) of the tiles processed so far -/
-structure Inv (n : Nat) (done : List (Nat × Bytes)) (s : BlockState) : Prop where
+structure Inv (M n : Nat) (done : List (Nat × Bytes)) (s : BlockState) : Prop where
   len : s.index.length = n
+  lenb : ∀ r ∈ s.index, r.len < M
+  seenb : ∀ p ∈ s.seen, p.2.len < M
   seen : ∀ p ∈ s.seen, slice s.blobs p.2 = p.1 ∧ p.2.len = p.1.length ∧ p.2.off + p.2.len ≤ s.blobs.length
   bounds : ∀ r ∈ s.index, r.off + r.len ≤ s.blobs.length
   hit : ∀ d ∈ done, ∃ r, s.index[d.1]? = some r ∧ r.len = d.2.length ∧ slice s.blobs r = d.2
   miss : ∀ i, i < n → (∀ d ∈ done, d.1 ≠ i) → s.index[i]? = some ⟨0, 0⟩
 
-theorem inv_init (n : Nat) : Inv n [] ⟨[], List.replicate n ⟨0, 0⟩, []⟩ := by
-  refine ⟨by simp, by simp, ?_, by simp, ?_⟩
+theorem inv_init (M n : Nat) (hM : 0 < M) : Inv M n [] ⟨[], List.replicate n ⟨0, 0⟩, []⟩ := by
+  refine ⟨by simp, ?_, by simp, by simp, ?_, by simp, ?_⟩
+  · intro r hr
+    rw [List.mem_replicate] at hr
+    rw [hr.2]; exact hM
   · intro r hr
     rw [List.mem_replicate] at hr
     rw [hr.2]; simp
@@ -52,16 +57,24 @@ theorem mem_set {l : List Range} {i : Nat} {v r : Range} (h : r ∈ l.set i v) :
   | inl h => exact Or.inr h
   | inr h => exact Or.inl h
 
-theorem putAt_inv {n : Nat} {done : List (Nat × Bytes)} {s : BlockState} (inv : Inv n done s)
-    (i : Nat) (payload : Bytes) (hi : i < n) (hnew : ∀ d ∈ done, d.1 ≠ i) :
-    Inv n ((i, payload) :: done) (putAt i s payload) := by
+theorem putAt_inv {M n : Nat} {done : List (Nat × Bytes)} {s : BlockState} (inv : Inv M n done s)
+    (i : Nat) (payload : Bytes) (hi : i < n) (hM : payload.length < M) (hnew : ∀ d ∈ done, d.1 ≠ i) :
+    Inv M n ((i, payload) :: done) (putAt i s payload) := by
   have hlen := inv.len
   -- the two ways of storing: reuse a seen range, or append
   have append_case : ∀ (seen' : List (Bytes × Range)),
       (∀ p ∈ seen', p ∈ s.seen ∨ p = (payload, ⟨s.blobs.length, payload.length⟩)) →
-      Inv n ((i, payload) :: done) ⟨s.blobs ++ payload, s.index.set i ⟨s.blobs.length, payload.length⟩, seen'⟩ := by
+      Inv M n ((i, payload) :: done) ⟨s.blobs ++ payload, s.index.set i ⟨s.blobs.length, payload.length⟩, seen'⟩ := by
     intro seen' hs
-    refine ⟨by simp [hlen], ?_, ?_, ?_, ?_⟩
+    refine ⟨by simp [hlen], ?_, ?_, ?_, ?_, ?_, ?_⟩
+    · intro r hr
+      cases mem_set hr with
+      | inl h => subst h; exact hM
+      | inr h => exact inv.lenb r h
+    · intro p hp
+      cases hs p hp with
+      | inl h => exact inv.seenb p h
+      | inr h => subst h; exact hM
     · intro p hp
       cases hs p hp with
       | inl h =>
@@ -99,7 +112,11 @@ theorem putAt_inv {n : Nat} {done : List (Nat × Bytes)} {s : BlockState} (inv :
         have := List.find?_some hf
         simpa using this
       have ⟨a, b, c⟩ := inv.seen p hp
-      refine ⟨by simp [hlen], inv.seen, ?_, ?_, ?_⟩
+      refine ⟨by simp [hlen], ?_, inv.seenb, inv.seen, ?_, ?_, ?_⟩
+      · intro r hr
+        cases mem_set hr with
+        | inl h => subst h; exact inv.seenb p hp
+        | inr h => exact inv.lenb r h
       · intro r hr
         cases mem_set hr with
         | inl h => subst h; exact c
@@ -131,19 +148,19 @@ def positions (box : BBox) (ts : List Tile) : List (Nat × Bytes) :=
 
 /-- the whole stream: if all tiles are inside the box, at pairwise different positions below `n`,
     `putTiles` succeeds and the invariant holds for all of them -/
-theorem putTiles_inv (box : BBox) (n : Nat) : ∀ (ts : List Tile) (done : List (Nat × Bytes)) (s : BlockState),
-    Inv n done s →
-    (∀ t ∈ ts, box.contains2 t.1.1 t.1.2.1 = true ∧ boxPos box t.1.1 t.1.2.1 < n) →
+theorem putTiles_inv (box : BBox) (M n : Nat) : ∀ (ts : List Tile) (done : List (Nat × Bytes)) (s : BlockState),
+    Inv M n done s →
+    (∀ t ∈ ts, box.contains2 t.1.1 t.1.2.1 = true ∧ boxPos box t.1.1 t.1.2.1 < n ∧ t.2.length < M) →
     (∀ t ∈ ts, ∀ d ∈ done, d.1 ≠ boxPos box t.1.1 t.1.2.1) →
     ((positions box ts).map (·.1)).Nodup →
-    ∃ s', putTiles box s ts = .ok s' ∧ Inv n ((positions box ts).reverse ++ done) s' := by
+    ∃ s', putTiles box s ts = .ok s' ∧ Inv M n ((positions box ts).reverse ++ done) s' := by
   intro ts
   induction ts with
   | nil => intro done s inv _ _ _; exact ⟨s, rfl, by simpa [positions] using inv⟩
   | cons t ts ih =>
     intro done s inv hin hdone hnd
-    have ⟨hc, hp⟩ := hin t (by simp)
-    have inv' := putAt_inv inv (boxPos box t.1.1 t.1.2.1) t.2 hp (fun d hd => hdone t (by simp) d hd)
+    have ⟨hc, hp, hM⟩ := hin t (by simp)
+    have inv' := putAt_inv inv (boxPos box t.1.1 t.1.2.1) t.2 hp hM (fun d hd => hdone t (by simp) d hd)
     simp only [positions, List.map_cons, List.nodup_cons] at hnd
     have hrest := ih ((boxPos box t.1.1 t.1.2.1, t.2) :: done) (putAt (boxPos box t.1.1 t.1.2.1) s t.2) inv'
       (fun u hu => hin u (by simp [hu]))
